@@ -85,6 +85,8 @@ OpsPresMix == OpsPres \cup OpsCnt
 
 \* a mixed alphabet for simulation
 OpsMix == OpsArr \cup OpsObj \cup OpsTxt \cup OpsCnt \cup OpsTreeText
+\* a dedup counter: its state is the HyperLogLog registers, not the number it shows
+OpsDedup == {O("dup.add", 0, 0, v) : v \in 0..4}
 OpsMix2 == OpsArr \cup OpsNest \cup OpsTxt \cup OpsCnt \cup OpsTreeElem
 OpsGC == {O("arr.add", 0, 0, 1), O("arr.ins", 0, 0, 2), O("arr.ins", 2, 0, 2), O("arr.del", 0, 0, 0), O("arr.del", 2, 0, 0),
           O("arr.mov", 0, 2, 0), O("arr.mov", 2, 0, 0), O("arr.set", 1, 0, 3),
